@@ -159,6 +159,11 @@ def run_tlc(module,
         e.update(env)
     if java_opts:
         e['JAVA_TOOL_OPTIONS'] = java_opts
+    # TLC creates a directory in java.io.tmpdir on every start and leaves it
+    jtmp = os.path.join(work, 'jtmp')
+    os.makedirs(jtmp, exist_ok=True)
+    e['JAVA_TOOL_OPTIONS'] = (e.get('JAVA_TOOL_OPTIONS', '') +
+                              ' -Djava.io.tmpdir=' + jtmp).strip()
     res = TlcResult()
     res.cmd = ' '.join(cmd)
     res.workdir = work
